@@ -125,6 +125,9 @@ func runRoundTrip(c *Ctx, mode int) {
 			}
 		}
 	}
+	// every framed body on both sides of the 127|128 length-prefix boundary, bare and nested
+	// (struct in struct in slice / map): bytes and round trip
+	boundarySweep(c, true, c.addRT)
 }
 
 // splitFields cuts a message into its top-level fields with an independent
@@ -269,9 +272,15 @@ type lawOuter struct {
 	MM map[string]string `plenc:"8"`
 }
 
-func boundaryLaws(c *Ctx) {
+func boundaryLaws(c *Ctx) { boundarySweep(c, false, c.addLaws) }
+
+// boundarySweep feeds the boundary values to emit (the codec laws, or a Marshal/Unmarshal round trip)
+func boundarySweep(c *Ctx, small bool, emit func(*TypeCase, reflect.Value, string)) {
 	lens := []int{0, 1, 119, 120, 121, 122, 123, 124, 125, 126, 127, 128, 129, 130, 131}
 	big := []int{16376, 16378, 16379, 16380, 16381, 16382, 16383, 16384, 16385, 16386}
+	if small {
+		big = nil // round trips of 16 KB values through the model are not worth their time
+	}
 	if c.Tier == "thorough" {
 		for n := 100; n < 140; n++ {
 			lens = append(lens, n)
@@ -336,10 +345,10 @@ func boundaryLaws(c *Ctx) {
 			if n <= 1000 {
 				iv := reflect.New(tcInts.T).Elem()
 				iv.Set(reflect.ValueOf(ints(n)))
-				c.addLaws(tcInts, iv, "laws-boundary")
+				emit(tcInts, iv, "boundary")
 				sv := reflect.New(tcStr.T).Elem()
 				sv.SetString(str(n))
-				c.addLaws(tcStr, sv, "laws-boundary")
+				emit(tcStr, sv, "boundary")
 			}
 			for w := 0; w < 8; w++ {
 				if n > 1000 && w != which {
@@ -354,7 +363,7 @@ func boundaryLaws(c *Ctx) {
 					b := box(w, n-slack)
 					bv := reflect.New(tcBox.T).Elem()
 					bv.Set(reflect.ValueOf(b))
-					c.addLaws(tcBox, bv, "laws-boundary")
+					emit(tcBox, bv, "boundary")
 					var o lawOuter
 					switch c.rng.Intn(6) {
 					case 0:
@@ -374,7 +383,7 @@ func boundaryLaws(c *Ctx) {
 					}
 					ov := reflect.New(tcOut.T).Elem()
 					ov.Set(reflect.ValueOf(o))
-					c.addLaws(tcOut, ov, "laws-boundary")
+					emit(tcOut, ov, "boundary")
 				}
 			}
 		}
@@ -390,7 +399,7 @@ func boundaryLaws(c *Ctx) {
 		}
 		ov := reflect.New(tc.T).Elem()
 		ov.Set(reflect.ValueOf(o))
-		c.addLaws(tc, ov, "laws-boundary-count")
+		emit(tc, ov, "boundary-count")
 	}
 }
 
